@@ -159,3 +159,26 @@ CHECKS["C19"] = dict(
           dict(name="race", pkg="./dptc", go=GO, test="TestC19", race=True, shards=(2, 4), checks=(300, 4000), timeout=(300, 3000),
                env={"VERIF_JOBNAME": "race"})],
 )
+
+HOOK_COMMITS.append("d687880")
+
+_TUN_ASSUME = ["A1: knx-go uses no Timer.Reset/Stop-and-drain idiom, so the timer-channel semantics selected by the harness module's Go version do not change its behaviour",
+               "A2: the in-memory socket (harness/common/memsock.go: packs every frame, FIFO pump with blocking hand-off on an unbuffered channel, Close closes Inbound) is a faithful model of the kernel sockets above the socket layer",
+               "virtual-time histories never let a goroutine wait for a mutex while time must pass: one outstanding Send at a time, an OK connect response is held back while a Send is pending, one Close caller at a time"]
+
+CHECKS["C03"] = dict(
+    rule=("rapid-drawn plans: configuration (resend 50 ms..2 s, timeout r..30r incl. non-multiples, UDP/TCP), 1..600 sequential Sends "
+          "(5% of the plans cross the 255->0 wrap), one gateway fate per transmitted request (lost; acknowledged after a delay around "
+          "0, r, 2r, T-r, T incl. just before/after each; duplicated 2-4x; error status 1..255; wrong sequence number; foreign channel), "
+          "unsolicited acknowledgements at scripted times, disconnect requests forcing a reconnect between/within Sends. Each plan runs "
+          "the real Tunnel inside a synctest bubble on an in-memory socket. Non-trivial = history with a retransmission, a failed Send, "
+          "an ignored/duplicate/error acknowledgement or the wrap; distinct by plan."),
+    level_text=("Sampled fault sequences on a fake clock with an exact reference model of the stop-and-wait sender (transmission times "
+                "t0+k*r, identical retransmissions, sequence number = acknowledged requests of the epoch mod 256, outcome and return "
+                "instant explained by an available matching acknowledgement, timeout at exactly t0+T); concurrent senders are sampled on "
+                "the real clock with timing-free invariants."),
+    level_note="Trusted: the reference sender model in harness/tun/c03_test.go, memsock, the hook constructor VerifNewTunnel (duplicates NewTunnel after socket creation). Exact-timing clauses are decided for one outstanding Send at a time; contention is judged by order/accounting invariants only.",
+    technique="rapid model-based testing of generated fault scripts under testing/synctest virtual time (exact reference model); rapid concurrent histories on the real clock with history invariants",
+    assumptions=_TUN_ASSUME,
+    jobs=[dict(name="bubble", pkg="./tun", go=GO126, test="TestC03B", shards=(4, 16), checks=(1500, 25000), timeout=(600, 3000))],
+)
